@@ -15,7 +15,7 @@ RULE = ("Engine S histories on Buffer and Fleet edges (FIFO/LIFO, capacity 1-4, 
         "side, or a zero delay, or two items due in the same instant.")
 ASSUMPTIONS = ["tolerance 1e-9 relative on times (DESIGN R3)"]
 
-WEIGHTS = {"rp": 7, "rg": 6, "put": 7, "get": 4, "cp": 2, "cg": 2, "settle": 1, "adv": 6, "probe_put": 5, "probe_get": 5}
+WEIGHTS = {"rp": 7, "rg": 6, "put": 7, "get": 4, "cp": 2, "cg": 2, "settle": 1, "adv": 6, "probe_put": 5, "probe_get": 5, "peek": 2}
 CLASSES = ["Buffer", "Buffer", "Fleet"]
 
 
